@@ -1,4 +1,4 @@
-import SSVerif.Model.ProtocolSys
+import SSVerif.Model.ProtocolApi
 import Driver.Util
 /-! driver sub-command `c09`: replays a transcript of API calls (call + the data-dependent part of what
 the implementation returned) on the protocol automaton; prints return class and state summary -/
@@ -112,17 +112,29 @@ def showBuilt (l : List (Nat × SSVerif.AlignVec.UAlign)) : String :=
   let sorted := (l.toArray.qsort (fun a b => a.1 < b.1)).toList
   sepBy "," (sorted.map fun p => s!"{p.1}:{p.2.word.n}/{p.2.sseq.n}/{p.2.state.n}")
 
-def showInst (s : ApiState) : String :=
+def showInst (s : ApiState) (created processing : Bool) (fr : Nat) : String :=
   let its := s!" it={countKind isSeg s.iters},{countKind isHyp s.iters},{countKind isAli s.iters} lr={s.lats.length} ar={s.alns.length} ln={countKind isLatN s.iters},{countKind isLatL s.iters} ub={showBuilt s.built}"
   if s.refs = 0 then "D=0" ++ its
   else
-    let u := match s.utt with | .idle => "i" | .inUtt => "s" | .ended => "e"
-    s!"D={s.refs} u={u} s={b01 (s.search != .none)} a={b01 s.align} j={b01 s.json} g={b01 s.dag}" ++ its
+    let u := if created then "c" else match s.utt with | .idle => "i" | .inUtt => (if processing then "p" else "s") | .ended => "e"
+    s!"D={s.refs} u={u} s={b01 (s.search != .none)} a={b01 s.align} j={b01 s.json} g={b01 s.dag} fr={if created then 0 else fr}" ++ its
 
 def countSub (k : SubKind) (l : List (SubKind × Nat)) : Nat := (l.filter fun p => p.1 == k).length
 
-def showState (s : Sys) : String :=
-  s!"{showInst s.da} || {showInst s.db} || cf={s.cfgSlots.length} lm={countSub .lmath s.subs} fe={countSub .fe s.subs} ft={countSub .feat s.subs} ml={s.mllrs.length}"
+/-- the model state of the driver: the automaton's state and what has been seen of each decoder -/
+structure DState where
+  x : XState := x0
+  sa : Seen := {}
+  sb : Seen := {}
+
+def DState.seen (d : DState) : Inst → Seen | .a => d.sa | .b => d.sb
+def DState.setSeen (d : DState) (i : Inst) (m : Seen) : DState :=
+  match i with | .a => { d with sa := m } | .b => { d with sb := m }
+
+def showState (d : DState) : String :=
+  let x := d.x
+  let s := x.sys
+  s!"{showInst s.da x.crA x.prA (d.sa.frames.getD 0)} || {showInst s.db x.crB x.prB (d.sb.frames.getD 0)} || cf={s.cfgSlots.length} lm={countSub .lmath s.subs} fe={countSub .fe s.subs} ft={countSub .feat s.subs} ml={s.mllrs.length} so={x.strs.length}"
 
 /-- classification printed with every call: `ooo` = listed out-of-order, `oop` = out-of-protocol -/
 def classify (s : ApiState) (c : Call) (r : Ret) : String :=
@@ -161,22 +173,103 @@ def parseSys (ws : List String) : Option SysCall :=
   | "dec" :: i :: rest => do some (.dec (← pInst i) (← parseCall rest))
   | _ => none
 
-def stepLine (s : Sys) (ws : List String) : Sys × String :=
+def pAny (ws : List String) : Option AnyTy :=
   match ws with
-  | ["reset"] => (sys0, "reset")
-  | _ =>
-    match parseSys ws with
-    | none => (s, "bad-op")
-    | some c =>
-      let r := sysStep s c
-      let cls := match c with
-        | .dec i dc =>
-          let x := s.inst i
-          let fresh := match x.search with | .fresh => "f" | .used => "u" | .none => "n"
-          s!"{classify x dc r.2} {fresh}"
-        | _ => if r.2 == Ret.oop then "oop -" else "in -"
-      (r.1, s!"{showRet r.2} | {showState r.1} | {cls}")
+  | ["str", v] => (pStrVal v).map .str
+  | ["int"] => some .int | ["bool"] => some .bool | ["float"] => some .float
+  | _ => none
 
-def main : IO Unit := runLoop stepLine sys0
+/-- API-level calls: `x <op> …`; a base call may be preceded by `c1` (the audio block consumed a cepstral frame) -/
+def parseX (ws : List String) : Option XCall :=
+  match ws with
+  | ["x", "create", i, "new", j, g] => do some (.createNew (← pInst i) (← pBool j) (← pGram g))
+  | ["x", "create", i, "null"] => do some (.createNull (← pInst i))
+  | ["x", "hyphold", i, k, e] => do some (.hypHold (← pInst i) (← parseNat k) (← pBool e))
+  | ["x", "jsonhold", i, k, l, u, r, a] =>
+    do some (.jsonHold (← pInst i) (← parseNat k) (← parseNat l) (← pBool u) (← pBool r) (← pBool a))
+  | ["x", "cmnhold", i, k] => do some (.cmnHold (← pInst i) (← parseNat k))
+  | ["x", "iterhold", i, id, k, e] => do some (.iterHold (← pInst i) (← parseNat id) (← parseNat k) (← pBool e))
+  | ["x", "buse", k] => do some (.borrowUse (← parseNat k))
+  | ["x", "lookuphold", i, k, f] => do some (.lookupHold (← pInst i) (← parseNat k) (← pBool f))
+  | ["x", "struse", k] => do some (.strUse (← parseNat k))
+  | ["x", "strfree", k] => do some (.strFree (← parseNat k))
+  | ["x", "alprop", i, k] => do some (.alProp (← pInst i) (← parseNat k))
+  | ["x", "cfgvalidate", a, b, e] => do some (.cfgValidate (← pTarget a b) (← pBool e))
+  | ["x", "cfgexpand", a, b] => do some (.cfgExpand (← pTarget a b))
+  | ["x", "cfglog", a, b] => do some (.cfgLog (← pTarget a b))
+  | ["x", "cfgparsenew", k, ok] => do some (.cfgParseNew (← parseNat k) (← pBool ok))
+  | "x" :: "cfgsetany" :: a :: b :: kt :: safe :: ty =>
+    do some (.cfgSetAny (← pTarget a b) (← pKeyType kt) (← pAny ty) (← pBool safe))
+  | "c1" :: rest => do some (.base (← parseSys rest) true)
+  | "c0" :: rest => do some (.base (← parseSys rest) false)
+  | _ => do some (.base (← parseSys ws) false)
+
+/-- the table `executes` / `excluded` for the check: `kind=f,f,…;…|f:reason;…` -/
+def apiMapLine : String :=
+  let ks := OpKind.all.map fun k => s!"{k.name}=" ++ sepBy "," ((executes k).map (·.str))
+  let ex := SSVerif.Generated.ApiSurface.ApiName.all.filterMap fun f =>
+    (excluded f).map fun r => s!"{f.str}:{r}"
+  sepBy ";" ks ++ "|" ++ sepBy ";" ex
+
+/-- observations that come with a call -/
+structure Obs where
+  fa : Nat := 0
+  fb : Nat := 0
+  nret : Nat := 0
+  w : WordInfo := .echo
+  p : PhoneInfo := .echo
+
+/-- leading observation tokens of a line: `F <a> <b>` = frame counters the implementation shows after the call,
+`N <n>` = count returned by an audio block, `W <class> <id> <base>` = what is known about the word of an add / lookup
+call, `P <class>` = about its phones -/
+def pObs : List String → Obs × List String
+  | "F" :: a :: b :: rest =>
+    let r := pObs rest
+    ({ r.1 with fa := (parseNat a).getD 0, fb := (parseNat b).getD 0 }, r.2)
+  | "N" :: n :: rest =>
+    let r := pObs rest
+    ({ r.1 with nret := (parseNat n).getD 0 }, r.2)
+  | "W" :: cls :: id :: base :: rest =>
+    let r := pObs rest
+    let w : WordInfo := match cls with
+      | "fresh" => .fresh id | "altof" => .altOf base id | "present" => .present | "absent" => .absent | _ => .echo
+    ({ r.1 with w := w }, r.2)
+  | "P" :: cls :: rest =>
+    let r := pObs rest
+    ({ r.1 with p := match cls with | "valid" => .valid | "invalid" => .invalid | _ => .echo }, r.2)
+  | ws => ({}, ws)
+
+def stepLine (d : DState) (ws0 : List String) : DState × String :=
+  let (o, ws) := pObs ws0
+  match ws with
+  | ["reset"] => ({}, "reset")
+  | ["apimap"] => (d, apiMapLine)
+  | _ =>
+    match parseX ws with
+    | none => (d, "bad-op")
+    | some c0 =>
+      let x := d.x
+      -- the model steps its own prediction of the data-dependent flags where it has one
+      let c := match instOfX c0 with
+        | some i => (d.seen i).predict o.w o.p c0
+        | none => c0
+      let r := xStep x c
+      let cls := match c with
+        | .base (.dec i dc) _ =>
+          let s := x.sys.inst i
+          let fresh := match s.search with | .fresh => "f" | .used => "u" | .none => "n"
+          s!"{classify s dc r.2} {fresh}"
+        | _ => if r.2 == Ret.oop then "oop -" else if decide (outOfOrderX x c) then "ooo -" else "in -"
+      let noop := !cls.startsWith "in"
+      let d1 : DState := { d with x := r.1 }
+      let d2 := match instOfX c with
+        | some i => d1.setSeen i ((d.seen i).update c r.2 noop o.nret (match i with | .a => o.fa | .b => o.fb) o.w)
+        | none => d1
+      -- a decoder that no longer exists has nothing to remember
+      let d3 : DState := { d2 with sa := if r.1.sys.da.refs = 0 then {} else d2.sa,
+                                   sb := if r.1.sys.db.refs = 0 then {} else d2.sb }
+      (d3, s!"{showRet r.2} | {showState d3} | {cls} {c.kind.name}")
+
+def main : IO Unit := runLoop stepLine ({} : DState)
 
 end Driver.C09
